@@ -544,6 +544,16 @@ def mon_c11(hs, prev, op, ok, trace, cur, known):
             new_ = sorted(set(cur.lines) - set(prev.lines))
             return ('violation', 'MigrateUnbondWaitList with no legacy entries left changed the state: %r -> %r '
                     '(anybody may send it; it must not lift a pause on its own)' % (gone_[:1], new_[:1]))
+    # the migration touches the two wait lists and (on its last page) the pause flag, nothing else: pools, rates,
+    # the open batch, every history entry and the configuration are exactly what they were
+    if t[0] == 'hub' and len(t) > 2 and t[2] == 'migrate' and ok:
+        for k_ in ('hub.stored', 'hub.batch', 'hub.hist', 'hub.cfg', 'hub.newowner'):
+            if prev.all(k_) != cur.all(k_):
+                a_ = [x for x in prev.all(k_) if x not in cur.all(k_)][:1]
+                b_ = [x for x in cur.all(k_) if x not in prev.all(k_)][:1]
+                return ('violation', 'MigrateUnbondWaitList changed %s: %s -> %s' % (k_, ' '.join(a_[0]) if a_ else '-', ' '.join(b_[0]) if b_ else '-'))
+        if prev.one('hub.params')[:6] != cur.one('hub.params')[:6]:
+            return ('violation', 'MigrateUnbondWaitList changed the hub parameters other than the pause flag')
     cpz = _cfg(cur, 'hub.params', 6)
     if cpz in ('0', '-') and pz == '1':
         old = cur.one('hub.oldwait')
